@@ -192,7 +192,9 @@ pub fn show_bytes(r: &Option<Result<Vec<u8>, MessageError>>) -> String {
     match r {
         None => "panic".into(),
         Some(Ok(b)) => format!("ok {}", val_token(b)),
-        Some(Err(e)) => format!("err {}", errname(e)),
+        // only the packet-length error is named by a property (C04); other kinds are not compared
+        Some(Err(MessageError::InvalidPacketLength)) => "err InvalidPacketLength".to_string(),
+        Some(Err(_)) => "err Other".to_string(),
     }
 }
 
@@ -492,8 +494,8 @@ pub fn case_rt(cx: &mut Ctx, spec: &PktSpec) {
     });
     let s = match &r {
         None => "panic".to_string(),
-        Some(Err(e)) => format!("err {}", errname(e)),
-        Some(Ok(Err(e))) => format!("decerr {}", errname(e)),
+        Some(Err(_)) => "err".to_string(),
+        Some(Ok(Err(_))) => "decerr".to_string(),
         Some(Ok(Ok(q))) => format!("ok {}", dump(q)),
     };
     cx.case(&line, &s);
